@@ -111,10 +111,15 @@ TEXTS = {
                 "one term (layout v2/v3), one gene, one disease is read back as exactly that record (id, name cut at the limit, obsolete flag, "
                 "replacement, direct terms), the length prefix is the record length; a valid UTF-8 name cut at a char boundary stays valid, a "
                 "name within the limit is not cut; big-endian u32 round trip; cut bounded by limit and name; limits fit the one-byte field; "
-                "writer header accepted by the reader (constants regenerated from the source). PARTIAL: the whole-ontology statement "
-                "decode(encode o) = Ok o' with o' observationally equal to o is not yet a theorem; it is decided per generated ontology by "
-                "running the encode/decode transcription against as_bytes/from_bytes (bytes compared record-sorted, reload dumped through "
-                "the whole read API, Ontology::compare consulted) and by spec_C07 evaluated on the crate's observation.",
+                "writer header accepted by the reader (constants regenerated from the source). SECTION LEVEL, any number of records: the term, "
+                "parent, gene and disease sections are read back as the corresponding sequence of Builder operations (C07_term_section, "
+                "C07_parent_section, C07_record_section). WHOLE FILE (C07_decode_encode_is_rebuild): from_bytes(as_bytes o), for any order in "
+                "which the HashMaps emit the records, IS the Builder pipeline (insert raw terms, add parent links, connect_all_terms, load and "
+                "propagate every record, calculate_information_content, build_with_defaults) run on the raw facts o carries — the file layer "
+                "is transparent. PARTIAL: that this rebuilt ontology is observationally equal to o is composed from the C01/C02/C03/C16 "
+                "theorems (closure and propagation depend on the facts only) but not yet stated as one theorem; it is decided per generated "
+                "ontology by running the encode/decode transcription against as_bytes/from_bytes (bytes compared record-sorted, reload dumped "
+                "through the whole read API, Ontology::compare consulted) and by spec_C07 evaluated on the crate's observation.",
         "design_ref": "DESIGN.md §4 C07, §9", "note": NOTE_COMMON + "String::from_utf8 / is_char_boundary modelled by byte-level predicates.", "technique": TECH,
     },
     "C08": {
